@@ -336,8 +336,8 @@ CHAIN_DOC = """<?xml version="1.0"?>
       <cn xmlns:cellml="http://www.cellml.org/cellml/1.0#" cellml:units="u1_per_s">1</cn></apply></math></component>
   <units name="u1_per_s"><unit units="u1"/><unit units="second" exponent="-1"/></units>
   <component name="cell"><variable name="x" units="u2" public_interface="in" private_interface="out"/>
-    <variable name="y" units="u2"/>
-    <math xmlns="http://www.w3.org/1998/Math/MathML"><apply><eq/><ci>y</ci><apply><plus/><ci>x</ci><cn xmlns:cellml="http://www.cellml.org/cellml/1.0#" cellml:units="u2">1</cn></apply></apply></math></component>
+    <variable name="y" units="u2"/><variable name="r" units="dimensionless"/><variable name="w" units="dimensionless" initial_value="2"/>
+    <math xmlns="http://www.w3.org/1998/Math/MathML"><apply><eq/><ci>r</ci><apply><root/><degree><cn xmlns:cellml="http://www.cellml.org/cellml/1.0#" cellml:units="dimensionless">%(deg)s</cn></degree><ci>w</ci></apply></apply><apply><eq/><ci>y</ci><apply><plus/><ci>x</ci><cn xmlns:cellml="http://www.cellml.org/cellml/1.0#" cellml:units="u2">1</cn></apply></apply></math></component>
   <component name="gate"><variable name="x" units="u3" public_interface="in"/>
     <variable name="z" units="u3"/>
     <math xmlns="http://www.w3.org/1998/Math/MathML"><apply><eq/><ci>z</ci><apply><plus/><ci>x</ci><cn xmlns:cellml="http://www.cellml.org/cellml/1.0#" cellml:units="u3">1</cn></apply></apply></math></component>
@@ -355,7 +355,7 @@ def run_chain_doc(k):
     base = rng.choice(['second', 'volt', 'mole', 'metre'])
     attrs = rng.sample(['prefix="milli"', 'prefix="micro"', '', 'multiplier="60"', 'prefix="kilo"', 'prefix="-9"'], 3)
     first_up = rng.random() < 0.5
-    doc = CHAIN_DOC % {'base': base, 'a1': attrs[0], 'a2': attrs[1], 'a3': attrs[2],
+    doc = CHAIN_DOC % {'base': base, 'a1': attrs[0], 'a2': attrs[1], 'a3': attrs[2], 'deg': rng.choice(['2.5', '3', '2', '1.5']),
                        'c1': 'env' if first_up else 'cell', 'c2': 'cell' if first_up else 'env',
                        'c3': 'cell' if rng.random() < 0.5 else 'gate', 'c4': None}
     doc = doc.replace('component_1="gate" component_2="None"', 'component_1="gate" component_2="cell"') \
@@ -375,8 +375,12 @@ def run_chain_doc(k):
             return [('a document with two successive converting connections is refused: %r' % (e,), {'chain': k})]
         bad = scan(m, 'document with two successive converting connections (%s: %s -> %s -> %s), after loading' % (base, *attrs))
         if not bad:
+            import cellmlmanip.units as U
             for eq in list(m.equations):
-                new = m.units.convert_expression_recursively(eq, None)
+                try:
+                    new = m.units.convert_expression_recursively(eq, None)
+                except U.UnitError:
+                    continue
                 if new is not eq:
                     m.remove_equation(eq)
                     m.add_equation(new)
